@@ -25,8 +25,8 @@ claim("C07",
       "Bounded: paths of depth <= 2 below the root, lists of <= 3 dependencies, one replacement per level (longer histories follow by induction because each rebinding starts from the recorded watchers, which are shown to be exactly the installed ones). Not decided: the resolution of a path to objects (_spec_to_obj, taken as every intermediate parameter followed by the leaves), paths that stop resolving, async dependent methods, that a watcher fires once per batch (C05).",
       "static analysis: finite-domain abstract interpretation of the watcher-construction and event-filter functions against a specification written from the property; syntactic ordering facts in Parameter.__set__")
 claim("C20",
-      "Partial decision of C20, limited to what lives in the shape of the value printers: container_script_repr is interpreted for lists and tuples of 0..3 elements and the emitted text is parsed with Python's own grammar (ast.parse: the printed program is analysed, not run) -- it must be a display of the same kind with the same elements in order (a one-element tuple needs its trailing comma), each element printed through pprint with the caller's imports list; a printer is registered for float and, interpreted on a finite float, inf, -inf and nan, emits a constant expression denoting the same float.",
-      "Partial. Not decided: that repr() of strings and other leaf values evaluates back to an equal value (Python's repr); the constructor-signature-driven printer of a Parameterized object (Parameters.pprint / _pprint: argument order, default suppression, nested objects); containers without a registered printer (dict, set), which are printed with repr. The first design declared C20 not applicable; the two rules exist because reading found the 1-tuple defect, and a printer's output can be checked against the grammar without running anything.",
+      "Partial decision of C20, limited to what lives in the shape of the value printers: container_script_repr is interpreted for lists and tuples of 0..3 elements and the emitted text is parsed with Python's own grammar (ast.parse: the printed program is analysed, not run) -- it must be a display of the same kind with the same elements in order (a one-element tuple needs its trailing comma), each element printed through pprint with the caller's imports list; a printer is registered for float and, interpreted on a finite float, inf, -inf and nan, emits a constant expression denoting the same float; Parameters._pprint is interpreted for an object of a class with constructor (self, a, b=<default>, **params): the text parses to one call of the class with the positional parameters first and in order, every changed parameter exactly once with its own printed value, generated names and unchanged parameters left out.",
+      "Partial. Not decided: that repr() of strings and other leaf values evaluates back to an equal value (Python's repr); constructor signatures other than (self, positional, keyword=default, **params), i.e. *args, keyword-only and non-parameter arguments; values(onlychanged=True); containers without a registered printer (dict, set), which are printed with repr. The first design declared C20 not applicable; the two rules exist because reading found the 1-tuple defect, and a printer's output can be checked against the grammar without running anything.",
       "static analysis: finite-domain abstract interpretation of the value printers; the emitted text is checked by parsing it (ast.parse) and evaluating constant expressions symbolically")
 claim("C11",
       "Bounded decision of C11: ParameterizedMetaclass.__param_inheritance is interpreted abstractly on a new class below a parent (that re-declares the Parameter or skips it) and a grandparent, for every subset of default / bounds / doc / label declared anew x Parameter type changed or not x an ancestor with instantiate=True x the validator's verdict x a default that is a value / None / falsy: per slot the nearest declaring ancestor wins (else the type's default, callable defaults called with the Parameter), inherited containers are copied, instantiate is inherited, the merged default is validated whenever the type changed or a validated slot was declared anew with a non-None merged default, and creation fails iff it is rejected; both routes the property names (class creation, add_parameter, and a Parameter assigned at class level) reach that function.",
